@@ -3,14 +3,18 @@
   eventually").  Transcribes, at the level of who waits for whom:
 
   * `Keyspace::insert` … `drop(journal_writer); self.maintenance(size)`:
-    `check_memtable_rotate` = `try_send(RotateMemtable)` while the active memtable is above its
-    limit; `local_backpressure` = spin while `sealed_memtable_count() >= 4` (src/keyspace/mod.rs);
-  * `worker_tick` (src/worker_pool.rs): `RotateMemtable` takes the journal lock, rotates if the
-    request is not stale, queues the flush task and notifies with `Flush`; `Flush` dequeues a task,
-    takes and releases the journal lock (journal rotation), flushes;
+    `check_memtable_rotate` = `try_send(RotateMemtable(active memtable id))` while the active
+    memtable is above its limit; `local_backpressure` = spin while `sealed_memtable_count() >= 4`
+    (src/keyspace/mod.rs);
+  * `worker_tick` / `handle_message` (src/worker_pool.rs): `RotateMemtable(id)` takes the journal
+    lock, rotates if `id` is still the active memtable, queues the flush task and notifies with
+    `Flush` (`try_send`; flushes right away when the channel is full – fix F24); `Flush` dequeues
+    a task (none: done), takes and releases the journal lock (journal rotation), flushes *all*
+    sealed memtables (lsm-tree `AbstractTree::flush`), then `try_send`s `pool_size` `Compact`
+    messages; `Compact` runs a compaction (no fjall lock);
   * the worker channel is bounded (`flume::bounded(1_000)`), the writers use `try_send`.
 
-  A state records only counters and phases; the schedule (a list of thread ids) is the input.
+  A state records counters and phases; the schedule (a list of thread ids) is the input.
   `Cfg` selects the code as it is, the code before fix F24 (`workerBlockingSend`) or the seeded
   change C14-2 (`unlockBeforeStall := false`).
 -/
@@ -21,6 +25,8 @@ structure Cfg where
   cap : Nat := 1000
   /-- sealed memtables at which writers halt -/
   limit : Nat := 4
+  /-- `Compact` messages sent after a flush (`pool_size`) -/
+  fanout : Nat := 1
   /-- before fix F24: a worker notifies with a blocking `send(Flush)` -/
   workerBlockingSend : Bool := false
   /-- the writer releases the journal lock before `maintenance` (false: seeded change C14-2) -/
@@ -37,17 +43,24 @@ structure Writer where
   deriving DecidableEq, Repr
 
 inductive WkPhase
-  | idle | rotWait | rotLocked | sendFlush | flushWait | flushLocked | flushing
+  | idle
+  /-- took a rotation request for memtable generation `g` -/
+  | rotWait (g : Nat) | rotLocked (g : Nat)
+  | sendFlush | flushWait | flushLocked | flushing | compacting
   deriving DecidableEq, Repr
 
 inductive Holder
   | w (i : Nat) | k (i : Nat)
   deriving DecidableEq, Repr
 
+/-- what an idle worker receives -/
+inductive Pick | rot | flush | compact
+  deriving DecidableEq, Repr
+
 inductive Tid
   | writer (i : Nat)
-  /-- an idle worker receives a rotation request (`pickRot`) or a flush message; a busy one advances -/
-  | worker (i : Nat) (pickRot : Bool)
+  /-- an idle worker receives a message of kind `pick`; a busy one advances -/
+  | worker (i : Nat) (pick : Pick)
   deriving DecidableEq, Repr
 
 structure State where
@@ -56,17 +69,28 @@ structure State where
   sealed : Nat := 0
   /-- queued flush tasks (`FlushManager`) -/
   tasks : Nat := 0
-  /-- `RotateMemtable` messages in the worker channel -/
-  rot : Nat := 0
+  /-- `RotateMemtable` messages in the worker channel, oldest first, each with the generation of
+      the memtable it was requested for -/
+  rotq : List Nat := []
   /-- `Flush` messages in the worker channel -/
   fl : Nat := 0
+  /-- `Compact` messages in the worker channel -/
+  cp : Nat := 0
+  /-- generation (id) of the active memtable -/
+  gen : Nat := 0
   /-- the active memtable is above its limit -/
   over : Bool := false
   writers : List Writer := []
   workers : List WkPhase := []
   deriving DecidableEq, Repr
 
-def State.room (cfg : Cfg) (s : State) : Bool := s.rot + s.fl < cfg.cap
+def State.queued (s : State) : Nat := s.rotq.length + s.fl + s.cp
+def State.room (cfg : Cfg) (s : State) : Bool := s.queued < cfg.cap
+
+/-- `try_send` of `n` `Compact` messages -/
+def State.sendCompacts (cfg : Cfg) (s : State) : Nat → State
+  | 0 => s
+  | n + 1 => (if s.room cfg then { s with cp := s.cp + 1 } else s).sendCompacts cfg n
 
 def stepWriter (cfg : Cfg) (s : State) (i : Nat) (w : Writer) : State :=
   match w.phase, w.todo with
@@ -77,11 +101,11 @@ def stepWriter (cfg : Cfg) (s : State) (i : Nat) (w : Writer) : State :=
   | .locked, big :: _ =>
     -- journal write, memtable insert, publish; then `maintenance`
     let over := s.over || big
-    let rot := if over && s.room cfg then s.rot + 1 else s.rot
+    let rotq := if over && s.room cfg then s.rotq ++ [s.gen] else s.rotq
     if cfg.unlockBeforeStall then
-      { s with jlock := none, over := over, rot := rot, writers := s.writers.set i { w with phase := .stalling } }
+      { s with jlock := none, over := over, rotq := rotq, writers := s.writers.set i { w with phase := .stalling } }
     else
-      { s with over := over, rot := rot, writers := s.writers.set i { w with phase := .stallingLocked } }
+      { s with over := over, rotq := rotq, writers := s.writers.set i { w with phase := .stallingLocked } }
   | .locked, [] => s
   | .stalling, _ =>
     if s.sealed ≥ cfg.limit then s
@@ -90,22 +114,27 @@ def stepWriter (cfg : Cfg) (s : State) (i : Nat) (w : Writer) : State :=
     if s.sealed ≥ cfg.limit then s
     else { s with jlock := none, writers := s.writers.set i { todo := w.todo.tail, phase := .idle } }
 
-def stepWorker (cfg : Cfg) (s : State) (j : Nat) (pickRot : Bool) (p : WkPhase) : State :=
+def stepWorker (cfg : Cfg) (s : State) (j : Nat) (pick : Pick) (p : WkPhase) : State :=
   match p with
   | .idle =>
-    if pickRot then
-      (if s.rot > 0 then { s with rot := s.rot - 1, workers := s.workers.set j .rotWait } else s)
-    else
+    match pick with
+    | .rot =>
+      (match s.rotq with
+       | g :: r => { s with rotq := r, workers := s.workers.set j (.rotWait g) }
+       | [] => s)
+    | .flush =>
       (if s.fl > 0 then
         (if s.tasks > 0 then { s with fl := s.fl - 1, tasks := s.tasks - 1, workers := s.workers.set j .flushWait }
          else { s with fl := s.fl - 1 })
        else s)
-  | .rotWait =>
-    if s.jlock.isNone then { s with jlock := some (.k j), workers := s.workers.set j .rotLocked } else s
-  | .rotLocked =>
-    if s.over then
+    | .compact =>
+      (if s.cp > 0 then { s with cp := s.cp - 1, workers := s.workers.set j .compacting } else s)
+  | .rotWait g =>
+    if s.jlock.isNone then { s with jlock := some (.k j), workers := s.workers.set j (.rotLocked g) } else s
+  | .rotLocked g =>
+    if g = s.gen then
       -- rotate: seal the memtable, queue the flush task, release the lock, notify
-      let s1 := { s with jlock := none, over := false, sealed := s.sealed + 1, tasks := s.tasks + 1 }
+      let s1 := { s with jlock := none, over := false, gen := s.gen + 1, sealed := s.sealed + 1, tasks := s.tasks + 1 }
       if cfg.workerBlockingSend then { s1 with workers := s.workers.set j .sendFlush }
       else if s1.room cfg then { s1 with fl := s.fl + 1, workers := s.workers.set j .idle }
       else -- no room: flush right away (the task just queued, or an older one)
@@ -116,14 +145,17 @@ def stepWorker (cfg : Cfg) (s : State) (j : Nat) (pickRot : Bool) (p : WkPhase) 
   | .flushWait =>
     if s.jlock.isNone then { s with jlock := some (.k j), workers := s.workers.set j .flushLocked } else s
   | .flushLocked => { s with jlock := none, workers := s.workers.set j .flushing }
-  | .flushing => { s with sealed := s.sealed - 1, workers := s.workers.set j .idle }
+  | .flushing =>
+    -- all memtables sealed by now go into the table; then the compaction requests
+    ({ s with sealed := 0, workers := s.workers.set j .idle }).sendCompacts cfg cfg.fanout
+  | .compacting => { s with workers := s.workers.set j .idle }
 
 def stepT (cfg : Cfg) (s : State) : Tid → State
   | .writer i => match s.writers[i]? with
     | some w => stepWriter cfg s i w
     | none => s
-  | .worker j pickRot => match s.workers[j]? with
-    | some p => stepWorker cfg s j pickRot p
+  | .worker j pick => match s.workers[j]? with
+    | some p => stepWorker cfg s j pick p
     | none => s
 
 def run (cfg : Cfg) (s : State) (sched : List Tid) : State := sched.foldl (stepT cfg) s
